@@ -31,7 +31,7 @@ Theorem C08_program_exception : forall (p : Z) (c : cfg) (pr : list stmt) (ins :
   forallb plain_stmt pr = true -> raised (model_run (p:=p) c pr ins ig) = Some (e, g) -> g = (None, ig, [(0, 1)]).
 Proof. intros p c. exact (program_exception_restores c). Qed.
 Theorem C08_program_return : forall (p : Z) (c : cfg) (pr : list stmt) r s cs,
-  forallb plain_stmt pr = true -> run (gen_stmts (p:=p) c pr []) init_gst = (r, s, cs) ->
+  forallb plain_stmt pr = true -> run (gen_stmts (p:=p) c pr bst0) init_gst = (r, s, cs) ->
   cur_triple s = cur_triple (init_gst (p:=p)) /\ unw s = None.
 Proof. intros p c pr r s cs H R. destruct (program_globals_restored c pr r s cs H R) as (T & U & _). split; assumption. Qed.
 
